@@ -308,6 +308,79 @@ func c15Priority(rep *vrep.Report) {
 		}
 	}
 	rec(nil)
+	// every arrival order of up to 7 distinct counters, with one Next taken after the first s additions: the item
+	// handed out is always the smallest pending one and the final drain is sorted
+	{
+		maxN := 6
+		if vrep.Thorough() {
+			maxN = 7
+		}
+		var perms int64
+		var permute func(cur, rest []int)
+		check := func(order []int) {
+			n := len(order)
+			for split := 0; split <= n; split++ {
+				pq := NewPriorityQueue[*item]("p", &noopTracer[*item]{})
+				pending := map[uint64]bool{}
+				for _, c := range order[:split] {
+					pq.Add(&item{id: c, counter: uint64(c)})
+					pending[uint64(c)] = true
+				}
+				var got []uint64
+				take := func() bool {
+					it := pq.Next()
+					if it == nil {
+						return false
+					}
+					min := uint64(1 << 62)
+					for c := range pending {
+						if c < min {
+							min = c
+						}
+					}
+					if it.counter != min {
+						rep.Violation("C15/priority-not-smallest", fmt.Sprintf("counters added in the order %v (Next after the first %d): Next returned counter %d, smallest pending is %d", order, split, it.counter, min), fmt.Sprint(order, split))
+					}
+					delete(pending, it.counter)
+					got = append(got, it.counter)
+					return true
+				}
+				if split > 0 && split < n {
+					take()
+				}
+				for _, c := range order[split:] {
+					pq.Add(&item{id: c, counter: uint64(c)})
+					pending[uint64(c)] = true
+				}
+				for take() {
+				}
+				if len(got) != n {
+					rep.Violation("C15/priority-count", fmt.Sprintf("order %v split %d: %d items handed out", order, split, len(got)), fmt.Sprint(order, split))
+				}
+				perms++
+			}
+		}
+		permute = func(cur, rest []int) {
+			if len(rest) == 0 {
+				check(cur)
+				return
+			}
+			for i := range rest {
+				nr := append(append([]int{}, rest[:i]...), rest[i+1:]...)
+				permute(append(append([]int{}, cur...), rest[i]), nr)
+			}
+		}
+		for n := 1; n <= maxN; n++ {
+			var all []int
+			for c := 1; c <= n; c++ {
+				all = append(all, c)
+			}
+			permute(nil, all)
+		}
+		rep.Eval("priority/arrival-orders")
+		rep.Add("priority_arrival_orders", perms)
+		rep.AddTransitions(perms)
+	}
 	rep.Add("priority_sequences", seqs)
 	rep.AddTraces(seqs)
 	rep.Sample(map[string]interface{}{"priority_queue": "all operation sequences", "alphabet": "add(1) add(2) add(3) next nextall size", "depth": depth, "sequences": seqs})
